@@ -91,6 +91,17 @@ def Disk.art (d : Disk) (n : Nat) : Option Art :=
   | none => none
   | some p => p.arts.lookup n
 
+/-- Directory listing of `patches/` (empty when the directory is absent). -/
+def Disk.artsList (d : Disk) : Arts :=
+  match d.patches with
+  | some p => p.arts
+  | none => []
+
+def Disk.junkList (d : Disk) : List String :=
+  match d.patches with
+  | some p => p.junk
+  | none => []
+
 def Disk.empty : Disk := { stateJson := .missing, patchesJson := .missing, patches := none }
 
 /-- `UpdateConfig` (config.rs), the parts that matter. Paths are opaque tokens. -/
